@@ -65,6 +65,12 @@ def run(ctx, res):
         keeptxt = '-'
         if cfg == 'keepall':
             args['keep_all_names'] = True
+        elif cfg == 'keepfile' and h % 5 == 4:
+            # a long keep file (tens of kilobytes): the names that matter are near its end
+            keep = [b'filler_name_%05d' % k for k in range(rng.choice([700, 2500]))] + [b'a', b'b', b'zz', b'foo']
+            kp = M.write_keep_file(ctx, keep, 'kbig%d.txt' % (h % 3), style=h % 2)
+            args['keep_names_from_file'] = kp
+            keeptxt = hx(open(kp, 'rb').read())
         elif cfg == 'keepfile':
             keep = rng.sample([b'a', b'b', b'c', b'd', b'aa', b'ba', b'foo', b'v3', b'zz', b'end', b'hp\x87', b'\x8b', b'\x80x', b'x\xff_1'], rng.randrange(0, 8))
             kp = M.write_keep_file(ctx, keep, 'k%d.txt' % (h % 20), style=h % 2)
